@@ -60,7 +60,7 @@ macro_rules! file_harness {
 // @verif prop=C05,C20 tier=quick timeout=1200 mem=8000 cost=300 concrete=1 clause="line number defined twice, second definition empty: analysis returns, every diagnostic maps onto its own line" sample="10 X = 1 / 10" bounds="this 2-line file (concrete text through the real tokenizer and analyzer)"
 file_harness!(c05_file_redefined_empty, "10 X = 1", "10");
 
-// @verif prop=C05,C20 tier=quick timeout=1200 mem=8000 cost=300 concrete=1 clause="line number defined twice, second definition untokenizable" sample="10 X = 1 / 10 PRINT (unterminated string)" bounds="this 2-line file"
+// @verif prop=C05,C20 tier=thorough timeout=2400 mem=20000 cost=900 concrete=1 clause="line number defined twice, second definition untokenizable" sample="10 X = 1 / 10 PRINT (unterminated string)" bounds="this 2-line file"
 file_harness!(c05_file_redefined_untokenizable, "10 X = 1", "10 PRINT \"");
 
 // @verif prop=C05 tier=quick timeout=1200 mem=8000 cost=300 concrete=1 clause="unnumbered, blank and CR-terminated lines; unused and undefined symbols" sample="(blank) / PRINT 1 / 20 Y = X (CR)" bounds="this 3-line file"
@@ -69,7 +69,7 @@ file_harness!(c05_file_mixed_lines, "", "PRINT 1", "20 Y = X\r");
 // @verif prop=C05 tier=quick timeout=1200 mem=10000 cost=300 concrete=1 clause="a tokenization error (invalid number) is reported with a range inside its line" sample="10 PRINT 1.2.3" bounds="this 1-line file"
 file_harness!(c05_file_invalid_number, "10 PRINT 1.2.3");
 
-// @verif prop=C05 tier=quick timeout=1200 mem=10000 cost=300 concrete=1 clause="a type error found by the analysis maps onto its line and token" sample="10 X = (string)" bounds="this 1-line file"
+// @verif prop=C05 tier=thorough timeout=2400 mem=20000 cost=900 concrete=1 clause="a type error found by the analysis maps onto its line and token" sample="10 X = (string)" bounds="this 1-line file"
 file_harness!(c05_file_type_error, "10 X = \"A\"");
 
 // @verif prop=C05 tier=thorough timeout=2400 mem=20000 cost=900 concrete=1 clause="undefined jump target, and an expression that ends early (errors raised inside expression analysis)" sample="10 GOTO 99 / 20 PRINT 1 +" bounds="this 2-line file"
